@@ -730,3 +730,80 @@ def plant_parms(doc, rng, kind):
     else:
         raise ValueError(kind)
     add_resource(doc, page, "XObject", "XD0", doc.add(x), b"q /XD0 Do Q")
+
+
+# ---- sequences through one Importer in which a page fails and a later page shares objects with it -------------------
+
+# what makes the typed copy of the carrier form fail AFTER the form itself was loaded (something nested in its resources /
+# entries that does not load as the type its position demands)
+FAIL_KINDS = ["unknown-subtype", "missing-required", "missing-bbox", "wrong-type-int", "wrong-type-dict", "wrong-entry-type",
+              "dangling", "metadata-not-stream", "pattern-bad"]
+# how the later page reaches what the failed page reached
+SHARE_KINDS = ["smask", "do", "entry", "sibling", "bad-direct", "nested-inner", "smask-indirect"]
+
+
+def plant_failing_share(doc, rng, fail, share):
+    """-> (index of the page whose import fails, index of a page that shares objects with it).  Needs >= 2 pages."""
+    doc.features.add("fail:" + fail)
+    doc.features.add("share:" + share)
+    ia, ib = rng.sample(range(len(doc.pages)), 2)
+    pa, pb = doc.objs[doc.pages[ia]], doc.objs[doc.pages[ib]]
+    img = _image_dict(2, 2, Name("DeviceRGB"))
+    fres = {}
+    extra = {}
+    if fail == "unknown-subtype":
+        bad = doc.add(Stream({"Type": Name("XObject"), "Subtype": Name("Vendor")}, b"abcd"))
+    elif fail == "missing-required":
+        d = dict(img)
+        del d["Width"]
+        bad = doc.add(Stream(d, rnd_bytes(rng, 12)))
+    elif fail == "missing-bbox":
+        bad = doc.add(Stream({"Type": Name("XObject"), "Subtype": Name("Form"), "FormType": 1}, b"0 0 1 1 re f"))
+    elif fail == "wrong-type-int":
+        bad = doc.add(42)
+    elif fail == "wrong-type-dict":
+        bad = doc.add({"Type": Name("XObject"), "Subtype": Name("Image"), "Width": 2, "Height": 2})
+    elif fail == "wrong-entry-type":
+        bad = doc.add(Stream(dict(img, Width=Name("Wide")), rnd_bytes(rng, 12)))
+    elif fail == "dangling":
+        bad = Ref(doc.n + 70 + rng.randrange(20))
+    elif fail == "metadata-not-stream":
+        bad = doc.add({"Type": Name("Metadata"), "Subtype": Name("XML")})
+        extra = {"Metadata": bad}
+    elif fail == "pattern-bad":
+        bad = doc.add({"Type": Name("Pattern"), "PatternType": 1, "PaintType": 1})
+        fres["Pattern"] = {"PB": bad}
+    else:
+        raise ValueError(fail)
+    if fail not in ("metadata-not-stream", "pattern-bad"):
+        fres["XObject"] = {"Bad": bad}
+    good = doc.add(enc_stream(rng, img, rnd_bytes(rng, 12), rng.choice(["none", "flate", "hex"])))
+    if share == "sibling" or rng.random() < 0.3:
+        fres.setdefault("XObject", {})["Good"] = good
+    if rng.random() < 0.5:
+        fres["ExtGState"] = {"GF": make_gs(doc, rng)}
+    body = b"0 0 10 10 re f" + (b" q /Good Do Q" if "Good" in fres.get("XObject", {}) else b"")
+    inner = make_form(doc, rng, fres, body, extra)
+    carrier = inner
+    if share == "nested-inner" or rng.random() < 0.25:
+        doc.features.add("fail:nested")
+        carrier = make_form(doc, rng, {"XObject": {"In": inner}}, b"q /In Do Q")
+    add_resource(doc, pa, "XObject", "XF", carrier, b"q /XF Do Q")
+    mask = lambda g: {"Type": Name("ExtGState"), "SMask": {"Type": Name("Mask"), "S": Name("Luminosity"), "G": g}}
+    if share == "smask":
+        add_resource(doc, pb, "ExtGState", "GSM", mask(carrier), b"/GSM gs 0 0 3 3 re f")
+    elif share == "smask-indirect":
+        add_resource(doc, pb, "ExtGState", "GSM", doc.add(mask(carrier)), b"/GSM gs 0 0 3 3 re f")
+    elif share == "do":
+        add_resource(doc, pb, "XObject", "XF2", carrier, b"q /XF2 Do Q")
+    elif share == "entry":
+        pb["PieceInfo"] = {"App": {"LastModified": b"D:20200101", "Private": carrier}}
+    elif share == "sibling":
+        add_resource(doc, pb, "XObject", "XG", good, b"q /XG Do Q")
+    elif share == "bad-direct":
+        add_resource(doc, pb, "ExtGState", "GSM", mask(bad), b"/GSM gs 0 0 3 3 re f")
+    elif share == "nested-inner":
+        add_resource(doc, pb, "ExtGState", "GSM", mask(inner), b"/GSM gs 0 0 3 3 re f")
+    else:
+        raise ValueError(share)
+    return ia, ib
